@@ -159,7 +159,7 @@ var specAVRounds = pbt.Register(&pbt.Spec[RoundsCase]{
 		}
 		return c
 	},
-	Run: RunAVRounds, Quick: 40, Thorough: 2000, Crashy: true, Retries: 50, CaseCPU: 120e9,
+	Run: RunAVRounds, Quick: 40, Thorough: 300, Crashy: true, Retries: 50, CaseCPU: 120e9,
 })
 
 func TestC18AVRounds(t *testing.T) { pbt.Check(t, specAVRounds) }
